@@ -661,10 +661,11 @@ end order
 
 /-! ### the per-source table -/
 
-/-- the floating part of the row entries, by recursion in declaration order -/
+/-- the floating part of the row entries, by recursion in declaration order
+(`j` = number of floating parameters passed so far = index of the fit parameter) -/
 def flEntries : List (Param V) → List (Option String) → Nat → List V → List (String × V × Int)
   | p :: ps, r :: row, j, g =>
-    if p.isfixed then flEntries ps row (j + 1) g
+    if p.isfixed then flEntries ps row j g
     else match g with
       | v :: g' => (match r with
           | some a => [(a, v, (j : Int) + 1)]
@@ -718,7 +719,7 @@ theorem flEntries_keys (ps : List (Param V)) (row : List (Option String)) (j : N
       unfold flEntries at he
       by_cases hf : p.isfixed = true
       · rw [if_pos hf] at he
-        exact List.mem_cons_of_mem _ (ih row (j + 1) g e he)
+        exact List.mem_cons_of_mem _ (ih row j g e he)
       · rw [if_neg hf] at he
         cases g with
         | nil => simp at he
@@ -752,11 +753,11 @@ theorem fxEntries_keys (ps : List (Param V)) (row : List (Option String)) (j : N
         exact List.mem_cons_of_mem _ (ih row (j + 1) e he)
 
 /-- the last assignment under local name `a` is the specification's cell -/
-theorem cell_eq (a : String) (ps : List (Param V)) (row : List (Option String)) (j : Nat) (g : List V)
-    (hl : row.length = ps.length) (hg : g.length = (ps.filter (fun p => !p.isfixed)).length)
+theorem cell_eq (a : String) (ps : List (Param V)) (row : List (Option String)) (j k : Nat)
+    (g : List V) (hl : row.length = ps.length) (hg : g.length = (ps.filter (fun p => !p.isfixed)).length)
     (hnd : (row.filterMap id).Nodup) :
-    lastLookup a (flEntries ps row j g ++ fxEntries ps row j) = Spec.cell a ps row j g := by
-  induction ps generalizing row j g with
+    lastLookup a (flEntries ps row k g ++ fxEntries ps row j) = Spec.cell a ps row j k g := by
+  induction ps generalizing row j k g with
   | nil =>
     cases row with
     | nil => simp [flEntries, fxEntries, lastLookup, Spec.cell]
@@ -783,11 +784,11 @@ theorem cell_eq (a : String) (ps : List (Param V)) (row : List (Option String)) 
       by_cases hf : p.isfixed = true
       · have hg' : g.length = (ps.filter (fun p => !p.isfixed)).length := by
           simpa [List.filter_cons, hf] using hg
-        have IH := ih row (j + 1) g hl' hg' hnd'
+        have IH := ih row (j + 1) k g hl' hg' hnd'
         unfold flEntries fxEntries Spec.cell
         simp only [hf, if_true]
         by_cases hr : r = some a
-        · have h1 := hfresh hr _ (flEntries_keys ps row (j + 1) g)
+        · have h1 := hfresh hr _ (flEntries_keys ps row k g)
           have h2 := hfresh hr _ (fxEntries_keys ps row (j + 1))
           subst hr
           simp [lastLookup_append, h1, h2, lastLookup]
@@ -803,12 +804,12 @@ theorem cell_eq (a : String) (ps : List (Param V)) (row : List (Option String)) 
         | cons v g' =>
           have hg' : g'.length = (ps.filter (fun p => !p.isfixed)).length := by
             simpa [List.filter_cons, hf] using hg
-          have IH := ih row (j + 1) g' hl' hg' hnd'
+          have IH := ih row (j + 1) (k + 1) g' hl' hg' hnd'
           have hf' : p.isfixed = false := by simpa using hf
           unfold flEntries fxEntries Spec.cell
           simp only [hf', Bool.false_eq_true, if_false]
           by_cases hr : r = some a
-          · have h1 := hfresh hr _ (flEntries_keys ps row (j + 1) g')
+          · have h1 := hfresh hr _ (flEntries_keys ps row (k + 1) g')
             have h2 := hfresh hr _ (fxEntries_keys ps row (j + 1))
             subst hr
             simp [lastLookup_append, h1, h2, lastLookup]
@@ -819,41 +820,52 @@ theorem cell_eq (a : String) (ps : List (Param V)) (row : List (Option String)) 
               have hne : a' ≠ a := fun h => hr (by rw [h])
               simp only [List.singleton_append, lastLookup_append, lastLookup_cons, hne, if_false]
               cases lastLookup a (fxEntries ps row (j + 1)) <;>
-                cases lastLookup a (flEntries ps row (j + 1) g') <;> rfl
+                cases lastLookup a (flEntries ps row (k + 1) g') <;> rfl
 
 
 /-! ### the boolean-mask form of the row entries equals the recursion -/
 
-/-- entries of the parameters selected by `c`, consuming one value of `xs` per selected parameter -/
-def gEntries (c : Param V → Bool) (ι : Nat → Int) :
-    List (Param V) → List (Option String) → Nat → List V → List (String × V × Int)
-  | p :: ps, r :: row, j, xs =>
+/-- entries of the parameters selected by `c`: one value of `xs` per selected parameter, the index
+entry is taken from the list `idx` that runs along with the parameters -/
+def gEntries (c : Param V → Bool) (ι : Int → Int) :
+    List (Param V) → List (Option String) → List Int → List V → List (String × V × Int)
+  | p :: ps, r :: row, ix :: idx, xs =>
     if c p then
       match xs with
       | v :: xs' => (match r with
-          | some a => [(a, v, ι j)]
-          | none => []) ++ gEntries c ι ps row (j + 1) xs'
+          | some a => [(a, v, ι ix)]
+          | none => []) ++ gEntries c ι ps row idx xs'
       | [] => []
-    else gEntries c ι ps row (j + 1) xs
+    else gEntries c ι ps row idx xs
   | _, _, _, _ => []
 
-theorem flEntries_eq (ps : List (Param V)) (row : List (Option String)) (j : Nat) (g : List V) :
-    flEntries ps row j g = gEntries (fun p => !p.isfixed) (fun i => (i : Int) + 1) ps row j g := by
-  induction ps generalizing row j g with
+theorem flEntries_eq (ps : List (Param V)) (row : List (Option String)) (k : Nat) (g : List V) :
+    flEntries ps row k g = gEntries (fun p => !p.isfixed) (fun i => i + 1) ps row
+      (PMM.cumsumM1 (ps.map (fun p => !p.isfixed)) (k : Int)) g := by
+  induction ps generalizing row k g with
   | nil => simp [flEntries, gEntries]
   | cons p ps ih =>
     cases row with
     | nil => simp [flEntries, gEntries]
     | cons r row =>
+      simp only [List.map_cons, PMM.cumsumM1]
       unfold flEntries gEntries
       cases hf : p.isfixed
       · cases g with
         | nil => simp
-        | cons v g' => simp [ih]
-      · simp [ih]
+        | cons v g' =>
+          have hk : ((k : Int) + 1) = ((k + 1 : Nat) : Int) := by push_cast; ring
+          simp only [Bool.not_false, if_true, Bool.false_eq_true, if_false, hk, ← ih]
+          cases r with
+          | none => rfl
+          | some a =>
+            simp only [List.singleton_append, List.cons.injEq, Prod.mk.injEq, true_and, and_true]
+            push_cast; ring
+      · simp [← ih]
 
 theorem fxEntries_eq (ps : List (Param V)) (row : List (Option String)) (j : Nat) :
-    fxEntries ps row j = gEntries (fun p => p.isfixed) (fun i => -(i : Int) - 1) ps row j
+    fxEntries ps row j = gEntries (fun p => p.isfixed) (fun i => -i - 1) ps row
+      ((List.range' j ps.length).map (fun (i : Nat) => (i : Int)))
       ((ps.filter (·.isfixed)).map (·.value)) := by
   induction ps generalizing row j with
   | nil => simp [fxEntries, gEntries]
@@ -861,6 +873,7 @@ theorem fxEntries_eq (ps : List (Param V)) (row : List (Option String)) (j : Nat
     cases row with
     | nil => simp [fxEntries, gEntries]
     | cons r row =>
+      simp only [List.length_cons, List.range'_succ, List.map_cons]
       unfold fxEntries gEntries
       cases hf : p.isfixed
       · simp [List.filter_cons, hf, ih]
@@ -871,64 +884,77 @@ theorem fxEntries_eq (ps : List (Param V)) (row : List (Option String)) (j : Nat
           simp only [List.singleton_append, List.cons.injEq, Prod.mk.injEq, true_and, and_true]
           omega
 
+theorem cumsumM1_length (l : List Bool) (acc : Int) : (PMM.cumsumM1 l acc).length = l.length := by
+  induction l generalizing acc with
+  | nil => rfl
+  | cons b l ih => simp [PMM.cumsumM1, ih]
+
 theorem andM_cons (a b : Bool) (as bs : List Bool) :
     Params.andM (a :: as) (b :: bs) = (a && b) :: Params.andM as bs := rfl
 
-theorem maskForm (c : Param V → Bool) (ι : Nat → Int) (ps : List (Param V)) (row : List (Option String))
-    (j : Nat) (xs : List V) (hl : row.length = ps.length) (hx : xs.length = (ps.filter c).length) :
-    ∃ (n : List (Option String)) (m : List Bool) (i : List Nat) (v : List V),
+theorem maskForm (c : Param V → Bool) (ι : Int → Int) (ps : List (Param V)) (row : List (Option String))
+    (idx : List Int) (xs : List V) (hl : row.length = ps.length) (hi : idx.length = ps.length)
+    (hx : xs.length = (ps.filter c).length) :
+    ∃ (n : List (Option String)) (m : List Bool) (i : List Int) (v : List V),
       maskSel row (Params.andM (ps.map c) (row.map (·.isSome))) = .ok n ∧
       maskSel (row.map (·.isSome)) (ps.map c) = .ok m ∧
-      maskSel (List.range' j ps.length) (Params.andM (ps.map c) (row.map (·.isSome))) = .ok i ∧
+      maskSel idx (Params.andM (ps.map c) (row.map (·.isSome))) = .ok i ∧
       maskSel xs m = .ok v ∧
       (n.filterMap id).length = v.length ∧ v.length = i.length ∧
-      PMM.zip3 (n.filterMap id) v (i.map ι) = gEntries c ι ps row j xs := by
-  induction ps generalizing row j xs with
+      PMM.zip3 (n.filterMap id) v (i.map ι) = gEntries c ι ps row idx xs := by
+  induction ps generalizing row idx xs with
   | nil =>
     cases row with
     | nil =>
-      cases xs with
-      | nil => exact ⟨[], [], [], [], rfl, rfl, rfl, rfl, rfl, rfl, rfl⟩
-      | cons x xs => simp at hx
+      cases idx with
+      | nil =>
+        cases xs with
+        | nil => exact ⟨[], [], [], [], rfl, rfl, rfl, rfl, rfl, rfl, rfl⟩
+        | cons x xs => simp at hx
+      | cons ix idx => simp at hi
     | cons r row => simp at hl
   | cons p ps ih =>
     cases row with
     | nil => simp at hl
     | cons r row =>
-      have hl' : row.length = ps.length := by simpa using hl
-      cases hc : c p
-      · have hx' : xs.length = (ps.filter c).length := by simpa [List.filter_cons, hc] using hx
-        obtain ⟨n, m, i, v, h1, h2, h3, h4, h5, h6, h7⟩ := ih row (j + 1) xs hl' hx'
-        refine ⟨n, m, i, v, ?_, ?_, ?_, h4, h5, h6, ?_⟩
-        · simp [andM_cons, maskSel, hc, h1]
-        · simp [maskSel, hc, h2]
-        · simp [andM_cons, maskSel, hc, List.range'_succ, h3]
-        · simp only [gEntries, hc, Bool.false_eq_true, if_false]; exact h7
-      · cases xs with
-        | nil => simp [List.filter_cons, hc] at hx
-        | cons x xs' =>
-          have hx' : xs'.length = (ps.filter c).length := by simpa [List.filter_cons, hc] using hx
-          obtain ⟨n, m, i, v, h1, h2, h3, h4, h5, h6, h7⟩ := ih row (j + 1) xs' hl' hx'
-          cases r with
-          | none =>
-            refine ⟨n, false :: m, i, v, ?_, ?_, ?_, ?_, h5, h6, ?_⟩
-            · simp [andM_cons, maskSel, hc, h1]
-            · simp [maskSel, hc, h2]
-            · simp [andM_cons, maskSel, hc, List.range'_succ, h3]
-            · simp [maskSel, h4]
-            · simp only [gEntries, hc, if_true, List.nil_append]; exact h7
-          | some a =>
-            refine ⟨some a :: n, true :: m, j :: i, x :: v, ?_, ?_, ?_, ?_, ?_, ?_, ?_⟩
-            · simp [andM_cons, maskSel, hc, h1]
-            · simp [maskSel, hc, h2]
-            · simp [andM_cons, maskSel, hc, List.range'_succ, h3]
-            · simp [maskSel, h4]
-            · simpa using h5
-            · simp [h6]
-            · simp only [gEntries, hc, if_true, List.singleton_append, List.filterMap_cons, id,
-                List.map_cons, PMM.zip3]
-              rw [← h7]
-              rfl
+      cases idx with
+      | nil => simp at hi
+      | cons ix idx =>
+        have hl' : row.length = ps.length := by simpa using hl
+        have hi' : idx.length = ps.length := by simpa using hi
+        cases hc : c p
+        · have hx' : xs.length = (ps.filter c).length := by simpa [List.filter_cons, hc] using hx
+          obtain ⟨n, m, i, v, h1, h2, h3, h4, h5, h6, h7⟩ := ih row idx xs hl' hi' hx'
+          refine ⟨n, m, i, v, ?_, ?_, ?_, h4, h5, h6, ?_⟩
+          · simp [andM_cons, maskSel, hc, h1]
+          · simp [maskSel, hc, h2]
+          · simp [andM_cons, maskSel, hc, h3]
+          · simp only [gEntries, hc, Bool.false_eq_true, if_false]; exact h7
+        · cases xs with
+          | nil => simp [List.filter_cons, hc] at hx
+          | cons x xs' =>
+            have hx' : xs'.length = (ps.filter c).length := by simpa [List.filter_cons, hc] using hx
+            obtain ⟨n, m, i, v, h1, h2, h3, h4, h5, h6, h7⟩ := ih row idx xs' hl' hi' hx'
+            cases r with
+            | none =>
+              refine ⟨n, false :: m, i, v, ?_, ?_, ?_, ?_, h5, h6, ?_⟩
+              · simp [andM_cons, maskSel, hc, h1]
+              · simp [maskSel, hc, h2]
+              · simp [andM_cons, maskSel, hc, h3]
+              · simp [maskSel, h4]
+              · simp only [gEntries, hc, if_true, List.nil_append]; exact h7
+            | some a =>
+              refine ⟨some a :: n, true :: m, ix :: i, x :: v, ?_, ?_, ?_, ?_, ?_, ?_, ?_⟩
+              · simp [andM_cons, maskSel, hc, h1]
+              · simp [maskSel, hc, h2]
+              · simp [andM_cons, maskSel, hc, h3]
+              · simp [maskSel, h4]
+              · simpa using h5
+              · simp [h6]
+              · simp only [gEntries, hc, if_true, List.singleton_append, List.filterMap_cons, id,
+                  List.map_cons, PMM.zip3]
+                rw [← h7]
+                rfl
 
 theorem zip3_append {α β γ : Type} (a1 a2 : List α) (b1 b2 : List β) (c1 c2 : List γ)
     (h1 : a1.length = b1.length) (h2 : b1.length = c1.length) :
@@ -965,11 +991,15 @@ theorem rowEntries_eq {gps : PSet V} (hs : Coherent gps) (row : List (Option Str
   have hg' : g.length = (gps.params.filter (fun p => !p.isfixed)).length := by
     rw [hg, hc.floatNames, List.length_map]
   obtain ⟨n1, m1, i1, v1, a1, a2, a3, a4, a5, a6, a7⟩ :=
-    maskForm (fun p => !p.isfixed) (fun i => (i : Int) + 1) gps.params row 0 g hl hg'
+    maskForm (fun p => !p.isfixed) (fun i => i + 1) gps.params row
+      (PMM.cumsumM1 (gps.params.map (fun p => !p.isfixed)) ((0 : Nat) : Int)) g hl
+      (by rw [cumsumM1_length, List.length_map]) hg'
   obtain ⟨n2, m2, i2, v2, b1, b2, b3, b4, b5, b6, b7⟩ :=
-    maskForm (fun p => p.isfixed) (fun i => -(i : Int) - 1) gps.params row 0
-      ((gps.params.filter (·.isfixed)).map (·.value)) hl (by simp)
+    maskForm (fun p => p.isfixed) (fun i => -i - 1) gps.params row
+      ((List.range' 0 gps.params.length).map (fun (i : Nat) => (i : Int)))
+      ((gps.params.filter (·.isfixed)).map (·.value)) hl (by simp) (by simp)
   unfold PMM.rowEntries
+  simp only [Nat.cast_zero] at a3
   simp only [hfm, hs.mask, hc.fixedVals, List.range_eq_range', a1, a2, a3, b1, b2, b3, a4, b4]
   rw [List.filterMap_append, zip3_append _ _ _ _ _ _ a5 (by simpa using a6), a7, b7,
     ← flEntries_eq, ← fxEntries_eq]
